@@ -107,7 +107,7 @@ reg(Spec('C01', ['c01:C01'],
          quick=[('DUPLEX', 1500), ('RACE', 1200), ('HDR', 800), ('UPGRADE', 400), ('FLOW', 400)],
          thorough=[('DUPLEX', 40000), ('RACE', 40000), ('HDR', 20000), ('UPGRADE', 10000), ('FLOW', 10000)],
          rule=R_RUN + 'non-trivial = >= 2 concurrent streams and >= 1 failed call followed by later traffic and >= 1 mid-frame delivery' + R_DISTINCT,
-         overrides={'*': {'matrix_outbound': False, 'small_closed': 0.0, 'small_backlog': False}},
+         overrides={'*': {'matrix_outbound': False, 'small_closed': 0.0, 'small_backlog': False, 'big_windows': False}},
          assumptions=['closed-stream memory at its default (65536): frames on forgotten streams are the business of C20',
                       'senders run with the default outbound validation and normalisation (a sender with validation off may emit blocks the peer must refuse: C15)',
                       'applications are HTTP-semantically sane in calls the generator classes as valid (declared content-length equals body, no body on no-content responses, header lists within the peer MAX_HEADER_LIST_SIZE, header bytes decodable in the peer header_encoding)',
@@ -213,7 +213,7 @@ reg(Spec('C28', [],
 reg(Spec('C25', ['c25:C25', 'c25:C25E2E'],
          quick=[('UPGRADE', 4000)],
          thorough=[('UPGRADE', 100000)],
-         overrides={'*': {'matrix_outbound': False, 'small_closed': 0.0, 'small_backlog': False, 'upgrade_full_space': 0.4,
+         overrides={'*': {'matrix_outbound': False, 'small_closed': 0.0, 'small_backlog': False, 'big_windows': False, 'upgrade_full_space': 0.4,
                           'upgrade_misuse_stream1': 0.3}},
          rule=R_RUN + 'started through initiate_upgrade_connection on both sides; non-trivial = non-default client settings were handed over, or the client tried to send on stream 1' + R_DISTINCT,
          assumptions=['client settings are installed before the upgrade the only way the API offers (conn.local_settings = Settings(...)); runs that continue with '
